@@ -195,7 +195,7 @@ def run_verus_unit_once(unit, work, seed, force, rlimit=None):
                 idx = sp['line_start'] - 1
                 if 0 <= idx < len(linemap) and linemap[idx]['origin'][0] == 'src' and linemap[idx]['fn']:
                     ufn = linemap[idx]['fn']
-            if ufn and not d.get('code') and re.search(r'not supported|does not yet support|not yet supported|unsupported', msg) and ufn not in force:
+            if ufn and not d.get('code') and re.search(r'not supported|does not yet support|not yet supported|unsupported|must have a decreases clause', msg) and ufn not in force:
                 unsupported_fns.append(ufn)
                 continue
             # the proof text woven into a function (hints, loop clauses) no longer compiles against its changed body
